@@ -11,6 +11,7 @@ import (
 	"os/exec"
 	"path/filepath"
 	"sort"
+	"strconv"
 	"strings"
 	"time"
 	"unicode/utf8"
@@ -22,7 +23,14 @@ import (
 	"verif/wire"
 )
 
-func main() { os.Exit(runC04(ev.ArgTier(), ev.ArgRest())) }
+func main() {
+	if len(os.Args) > 3 && os.Args[1] == "concurrent-child" {
+		seed, _ := strconv.ParseInt(os.Args[2], 10, 64)
+		n, _ := strconv.Atoi(os.Args[3])
+		os.Exit(c04concurrentChild(seed, n))
+	}
+	os.Exit(runC04(ev.ArgTier(), ev.ArgRest()))
+}
 
 // mapCtx is an FContext whose header maps are exactly what the case says, so
 // that WriteRequestHeader/WriteResponseHeader can be driven with arbitrary
@@ -231,6 +239,24 @@ func c04goLegs(c *c04case, rng *rand.Rand) (leg, msg string) {
 		}
 	}
 	c.GoBytes = w1
+	// 1b. the built-in context: what it says it holds is what is written
+	if len(H) <= 64 {
+		ictx := frugal.NewFContext("c")
+		for k, v := range H {
+			ictx.AddRequestHeader(k, v)
+		}
+		ib := thrift.NewTMemoryBuffer()
+		if err := pf.GetProtocol(ib).WriteRequestHeader(ictx); err != nil {
+			return "WriteRequestHeader(FContextImpl)", err.Error()
+		}
+		pairs, used, err := wire.DecodeHeaders(ib.Bytes())
+		if err != nil || used != ib.Len() {
+			return "WriteRequestHeader(FContextImpl)->reference", fmt.Sprintf("written bytes do not parse under the documented layout: %v (%d of %d bytes)", err, used, ib.Len())
+		}
+		if m, dup := wire.PairsToMap(pairs); dup || !mapsEqual(m, ictx.RequestHeaders()) {
+			return "WriteRequestHeader(FContextImpl)->reference", "pairs on the wire differ from the context's request headers"
+		}
+	}
 
 	// 2. reference-written bytes in a shuffled order, and the Go-written ones
 	pairs := wire.MapToPairs(H)
@@ -425,6 +451,8 @@ func runC04(tier string, args []string) int {
 		run.Exhaustive(false) // the random pool is sampled; only this sub-space is enumerated completely
 		run.Distinct("small-space")
 	}
+
+	c04concurrent(run)
 
 	// Python leg
 	pyCases := 0
